@@ -76,7 +76,7 @@ fn drain(fd: RawFd) -> Vec<u8> {
 }
 
 #[derive(Default, Clone, Debug)]
-pub struct WireStats { pub failed_sends_before: u64, pub sends_before: u64, pub foreign: u64, pub foreign_syn_other: u64, pub foreign_syn: u64, pub foreign_msc: u64, pub foreign_autorepeat: u64, pub foreign_unknown_code: u64, pub foreign_other_type: u64, pub foreign_big_code: u64, pub eagain_mid_skip: u64, pub batches: u64, pub records_written: u64 }
+pub struct WireStats { pub autorepeat_of_held_key: u64, pub failed_sends_before: u64, pub sends_before: u64, pub foreign: u64, pub foreign_syn_other: u64, pub foreign_syn: u64, pub foreign_msc: u64, pub foreign_autorepeat: u64, pub foreign_unknown_code: u64, pub foreign_other_type: u64, pub foreign_big_code: u64, pub eagain_mid_skip: u64, pub batches: u64, pub records_written: u64 }
 
 pub struct Pipes { pub kbd_r: RawFd, pub kbd_w: RawFd, pub tab_r: RawFd, pub tab_w: RawFd, pub out_r: RawFd, pub out_w: RawFd }
 impl Pipes {
@@ -148,11 +148,16 @@ impl PipeLayer {
   }
 }
 impl ByteLayer for PipeLayer {
-  fn push_kbd(&mut self, e: &Event, tape: &mut Tape) {
+  fn push_kbd(&mut self, e: &Event, tape: &mut Tape, held: &[KeyCode]) {
     let mut buf = vec![];
-    let nb = tape.below(3); for _ in 0..nb { let s = tape.below(10); let a = tape.below(1 << 16); buf.extend(foreign_record(s, a, &mut self.stats, false)); }
+    // an auto-repeat record is mostly that of a key that is really held (that is what a keyboard repeats)
+    let mut foreign = |s: u64, a: u64, stats: &mut WireStats| -> Vec<u8> {
+      if s % 10 == 2 && !held.is_empty() && (a >> 3) & 3 != 0 { stats.foreign += 1; stats.foreign_autorepeat += 1; stats.autorepeat_of_held_key += 1; kernel_record(1623709383, 272708, EV_KEY, (held[((a >> 5) as usize) % held.len()] as i32) as u16, 2) }
+      else { foreign_record(s, a, stats, false) }
+    };
+    let nb = tape.below(3); for _ in 0..nb { let s = tape.below(10); let a = tape.below(1 << 16); buf.extend(foreign(s, a, &mut self.stats)); }
     buf.extend(key_record(e));
-    let na = tape.below(3); for _ in 0..na { let s = tape.below(10); let a = tape.below(1 << 16); buf.extend(foreign_record(s, a, &mut self.stats, false)); }
+    let na = tape.below(3); for _ in 0..na { let s = tape.below(10); let a = tape.below(1 << 16); buf.extend(foreign(s, a, &mut self.stats)); }
     self.stats.records_written += 1 + nb + na;
     feed(self.p.kbd_w, &buf);
   }
